@@ -94,6 +94,10 @@ def dkim_case(rng, tier):
     hdrs = []
     for n in rng.sample(["Subject", "X-Custom", "Reply-To", "Cc", "X-Long", "List-Unsubscribe", "Message-ID"], rng.choice([0, 1, 2, 3])):
         hdrs += [n if rng.random() < 0.8 else anycase(rng, n), value(rng, tier)]
+    if rng.random() < 0.08:
+        # a field of the same name at message level and in the MIME part's header block
+        hdrs += [rng.choice(["Content-Type", "Content-Transfer-Encoding"]), rng.choice(["text/plain", "7bit", "text/x-other; a=b"])]
+        names = names + ["Content-Type"]
     ts = rng.choice([0, 1, 1700000000, 4102444800, rng.randrange(1 << 40), rng.randrange(100000)])
     return "\t".join(["dkim", alg, hc, bc, ",".join(hexs(n) for n in names) if names else "-", hexs(rng.choice(SELECTORS)), hexs(rng.choice(DOMAINS)),
                       str(ts), ",".join(hexs(x) if x else "_" for x in hdrs) if hdrs else "-", body(rng)])
@@ -175,4 +179,15 @@ def _sigfold(f, o, v):
     return f[0] == "dkim" and f[2] == "s" and "header-input:simple:signature-field-folded-differently" in v
 
 
-FINDING_CLASSES = {"simple-header-canon-signature-field-refolded": _sigfold}
+def _dup_listed_twice(f, o, v):
+    """a field name present both at message level and in the MIME part's header block, listed more than once in h="""
+    if f[0] != "dkim" or "header-input-differs-from-what-was-signed" not in v or f[9][0] not in "SM" or f[8] == "-":
+        return False
+    custom = [unhex(x).lower() for x in f[8].split(",")[0::2] if x != "_"]
+    names = [unhex(x).lower() for x in f[4].split(",") if x != "-"]
+    part_level = {b"content-type", b"content-transfer-encoding", b"mime-version"}
+    return any(n in part_level and n in custom and names.count(n) >= 2 for n in set(names))
+
+
+FINDING_CLASSES = {"simple-header-canon-signature-field-refolded": _sigfold,
+                   "duplicate-part-level-field-listed-twice": _dup_listed_twice}
